@@ -382,7 +382,7 @@ def run_wait2(case, st):
         st.traces += 1
         st.transitions += len(s.trace)
         if s.pre:
-            st.nontrivial.add((which, "2", tuple(hbs), tuple(t[1] for t in s.trace)))
+            st.nontrivial_n += 1          # (schedules are distinct by construction; keeping them costs gigabytes)
         rc = dict(case, schedule=[t[1] for t in s.trace])
         if deadlock:
             st.violation(f"C11:wait2:{which}:deadlock", rc, "no deadlock", deadlock)
@@ -448,7 +448,7 @@ def run_wait(case, st):
         st.traces += 1
         st.transitions += len(s.trace)
         if s.pre:
-            st.nontrivial.add((which, tuple(hbs), tuple(t[1] for t in s.trace)))
+            st.nontrivial_n += 1
         rc = dict(case, schedule=[t[1] for t in s.trace])
         if deadlock:
             st.violation(f"C11:wait:{which}:deadlock", rc, "no deadlock", deadlock)
